@@ -130,6 +130,9 @@ class T(int):
         o.c = list(c)
         return o
 
+    def __str__(self):
+        return str(int(self))
+
     def __repr__(self):
         return "T(%d, %r)" % (int(self), self.c)
 
@@ -682,7 +685,7 @@ def programs(max_nodes, pool=POOL2, profile="mid", max_depth=3, shard=None, cano
             continue
         for k in range(1, total + 1):
             firsts = en.stmts(k, TOP)
-            rests = en.lists(total - k, TOP) if total - k < total else None
+            rests = en.lists(total - k, TOP)
             for i in range(k0, len(firsts), K):
                 first = firsts[i]
                 for rest in rests:
@@ -716,33 +719,36 @@ class _NS:
 
 
 class _Macro:
-    __slots__ = ("name", "params", "body", "scope", "uses_caller", "marks")
+    __slots__ = ("name", "params", "body", "scope", "uses_caller", "marks", "node")
 
-    def __init__(self, name, params, body, scope, uses_caller, marks):
+    def __init__(self, name, params, body, scope, uses_caller, marks, node):
         self.name = name
         self.params = params
         self.body = body
         self.scope = scope
         self.uses_caller = uses_caller
         self.marks = marks
+        self.node = node
 
 
 class _Loop:
-    __slots__ = ("var", "body", "scope")
+    __slots__ = ("var", "body", "scope", "node")
 
-    def __init__(self, var, body, scope):
+    def __init__(self, var, body, scope, node):
         self.var = var
         self.body = body
         self.scope = scope
+        self.node = node
 
 
 class _Scope:
-    __slots__ = ("vars", "parent", "data")
+    __slots__ = ("vars", "parent", "data", "refs")
 
     def __init__(self, parent=None, data=None):
         self.vars = {}
         self.parent = parent
         self.data = data
+        self.refs = None  # only used by the diagnosis variant
 
     def lookup(self, name):
         s = self
@@ -798,203 +804,326 @@ def _mentions_caller(body):
     return False
 
 
-def _eval(e, sc):
+# ---- diagnosis variant (NOT an oracle) ------------------------------------------
+# interpret(..., variant="late-store") reproduces one specific deviation of the
+# implementation so that a mismatch can be given a narrow signature: in a scope
+# whose own code (nested scopes excluded) mentions a name for the first time as the
+# target of an unconditional assignment, and no enclosing scope's own code mentions
+# that name, the name is undefined from scope entry until the assignment runs, even
+# when the render data defines it; nested scopes reading it early see undefined.
+
+def _own_refs_expr(e, acc):
     k = e[0]
-    if k == "c":
-        return e[1]
-    if k == "v":
-        return sc.lookup(e[1])
-    if k == "flag":
-        return sc.lookup(e[1])
-    if k == "cat":
-        return _to_str(_eval(e[1], sc)) + _to_str(_eval(e[2], sc))
-    if k == "add1":
-        v = _eval(e[1], sc)
-        if isinstance(v, Undef):
-            raise _Raise("UndefinedError")
-        if isinstance(v, int):  # bool included, as in Python
-            return int(v) + 1
-        raise _Raise("TypeError")  # str + int
-    if k == "def":
-        return not isinstance(sc.lookup(e[1]), Undef)
-    if k == "odd":
-        v = sc.lookup(e[1])
-        if isinstance(v, Undef):
-            raise _Raise("UndefinedError")
-        if isinstance(v, int):
-            return int(v) % 2 == 1
-        raise _Raise("TypeError")
-    if k == "nsget":
-        v = sc.lookup(e[1])
-        if isinstance(v, Undef):
-            raise _Raise("UndefinedError")
-        if isinstance(v, _NS):
-            return v.attrs.get(e[2], Undef(e[2]))
-        return Undef(e[2])
-    if k == "call":
-        f = sc.lookup(e[1])
-        args = [_eval(a, sc) for a in e[2]]
-        kwargs = [(kw, _eval(a, sc)) for kw, a in e[3]]
-        return _call(f, args, kwargs, None)
-    if k == "caller":
-        f = sc.lookup("caller")
-        args = [_eval(a, sc) for a in e[1]]
-        return _call(f, args, [], None)
-    raise ValueError(e)
+    if k in ("v", "def", "odd"):
+        acc.append((e[1], "load"))
+    elif k == "cat":
+        _own_refs_expr(e[1], acc)
+        _own_refs_expr(e[2], acc)
+    elif k == "add1":
+        _own_refs_expr(e[1], acc)
+    elif k == "nsget":
+        acc.append((e[1], "load"))
+    elif k == "call":
+        acc.append((e[1], "load"))
+        for a in e[2]:
+            _own_refs_expr(a, acc)
+        for _, a in e[3]:
+            _own_refs_expr(a, acc)
+    elif k == "caller":
+        acc.append(("caller", "load"))
+        for a in e[1]:
+            _own_refs_expr(a, acc)
 
 
-def _call(f, args, kwargs, caller):
-    if isinstance(f, Undef):
-        raise _Raise("UndefinedError")
-    if not isinstance(f, _Macro):
-        raise _Raise("TypeError")
-    names = [p for p, _ in f.params]
-    if len(args) > len(names):
-        raise _Raise("TypeError")
-    sc = _Scope(f.scope)
-    given = dict(zip(names, args))
-    for kw, v in kwargs:
-        if kw not in names or kw in given:
-            raise _Raise("TypeError")
-        given[kw] = v
-    if f.uses_caller:
-        sc.vars["caller"] = caller if caller is not None else Undef("caller")
-    elif caller is not None:
-        raise _Raise("TypeError")
-    # all parameters are local names from the start; the ones not provided are
-    # undefined until their default has been evaluated, left to right, in the
-    # macro's own scope  # CALIBRATED (docs only show constant defaults)
-    for p in names:
-        sc.vars[p] = given[p] if p in given else Undef(p)
-    for p, d in f.params:
-        if p not in given and d is not None:
-            sc.vars[p] = _eval(d, sc)
-    out = [f.marks[0]]
-    _exec(f.body, sc, out)
-    out.append(f.marks[1])
-    return "".join(out)
-
-
-def _render_loop(lp, items, out):
-    for item in items:
-        it = _Scope(lp.scope)
-        it.vars[lp.var] = item
-        it.vars["loop"] = lp
-        out.append("[")
-        _exec(lp.body, it, out)
-        # {{ loop(v.c) }}
-        v = it.lookup(lp.var)
-        if isinstance(v, Undef):
-            raise _Raise("UndefinedError")
-        ch = getattr(v, "c", None) if isinstance(v, T) else None
-        if ch is not None:
-            buf = []
-            _render_loop(lp, ch, buf)
-            out.append("".join(buf))
-        # any other value: `.c` is undefined, iterating undefined gives no items
-        out.append("]")
-
-
-def _exec(prog, sc, out):
-    for st in prog:
+def _own_refs(stmts, acc, branch=False):
+    st_kind = "bstore" if branch else "store"
+    for st in stmts:
         k = st[0]
         if k == "out":
-            out.append(_to_str(_eval(st[1], sc)))
-        elif k == "text":
-            out.append(st[1])
+            _own_refs_expr(st[1], acc)
         elif k == "set":
-            sc.vars[st[1]] = _eval(st[2], sc)
+            _own_refs_expr(st[2], acc)
+            acc.append((st[1], st_kind))
         elif k == "bset":
-            buf = ["s"]
-            _exec(st[2], _Scope(sc), buf)
-            sc.vars[st[1]] = "".join(buf)
+            acc.append((st[1], st_kind))
         elif k == "if":
-            for i, (cond, body) in enumerate(st[1]):
-                if _truth(_eval(cond, sc)):
-                    out.append("i" if i == 0 else "j")
-                    _exec(body, sc, out)
-                    break
-            else:
-                if st[2]:
-                    out.append("e")
-                    _exec(st[2], sc, out)
-        elif k == "for":
-            items = [1, 2] if st[2] == "l12" else []
-            if st[3] is not None:
-                kept = []
-                for item in items:
-                    ts = _Scope(sc)
-                    ts.vars[st[1]] = item
-                    if _truth(_eval(st[3], ts)):
-                        kept.append(item)
-                items = kept
-            for item in items:
-                it = _Scope(sc)
-                it.vars[st[1]] = item
-                out.append("(")
-                try:
-                    _exec(st[4], it, out)
-                except _Continue:
-                    continue
-                except _Break:
-                    break
-                out.append(")")
-            if not items and st[5]:
-                out.append("!")
-                _exec(st[5], _Scope(sc), out)
-        elif k == "break":
-            raise _Break()
-        elif k == "continue":
-            raise _Continue()
+            for cond, b in st[1]:
+                _own_refs_expr(cond, acc)
+            for cond, b in st[1]:
+                _own_refs(b, acc, True)
+            if st[2]:
+                _own_refs(st[2], acc, True)
         elif k == "with":
-            inner = _Scope(sc)
-            for n, e in st[1]:
-                inner.vars[n] = _eval(e, sc)
-            out.append("w")
-            _exec(st[2], inner, out)
+            for _, e in st[1]:
+                _own_refs_expr(e, acc)
         elif k == "macro":
-            sc.vars[st[1]] = _Macro(st[1], st[2], st[3], sc, _mentions_caller(st[3]), ("<", ">"))
+            acc.append((st[1], st_kind))
         elif k == "callblock":
-            cl = _Macro(None, tuple((p, None) for p in st[1]), st[3], sc, False, ("c", ";"))
-            call = st[2]
-            f = sc.lookup(call[1])
-            args = [_eval(a, sc) for a in call[2]]
-            kwargs = [(kw, _eval(a, sc)) for kw, a in call[3]]
-            out.append(_call(f, args, kwargs, cl))
-        elif k == "filter":
-            buf = ["x"]
-            _exec(st[1], _Scope(sc), buf)
-            out.append("".join(buf).upper())
+            _own_refs_expr(st[2], acc)
         elif k == "nsnew":
-            ns = _NS()
-            ns.attrs["x"] = _eval(st[2], sc)
-            sc.vars[st[1]] = ns
+            _own_refs_expr(st[2], acc)
+            acc.append((st[1], st_kind))
         elif k == "nsset":
-            tgt = sc.lookup(st[1])
-            # the namespace check comes before the right-hand side is evaluated  # CALIBRATED
-            if not isinstance(tgt, _NS):
-                raise _Raise("TemplateRuntimeError")
-            tgt.attrs[st[2]] = _eval(st[3], sc)
+            _own_refs_expr(st[3], acc)
+            acc.append((st[1], "load"))
         elif k == "recfor":
-            lp = _Loop(st[1], st[2], sc)
-            buf = []
-            _render_loop(lp, sc.lookup(TREE), buf)
-            out.append("".join(buf))
-        else:
-            raise ValueError(st)
+            acc.append((TREE, "load"))
 
 
-def interpret(prog, data):
+def _frame_info(own, params, extra_loads=()):
+    """(names the frame's own code mentions, names first mentioned by an unconditional store)"""
+    acc = []
+    for e in extra_loads:
+        _own_refs_expr(e, acc)
+    _own_refs(own, acc)
+    first = {}
+    for n, kind in acc:
+        first.setdefault(n, kind)
+    refs = set(first) | set(params)
+    early = [n for n, kind in first.items() if kind == "store" and n not in params]
+    return refs, early
+
+
+class _Interp:
+    def __init__(self, variant=None):
+        self.variant = frozenset([variant] if isinstance(variant, str) else (variant or ()))
+        self.depth = 0
+
+    # -- scopes
+    def scope(self, parent, own, params=(), extra_loads=(), data=None):
+        sc = _Scope(parent, data)
+        if "late-store" in self.variant:
+            refs, early = _frame_info(own, params, extra_loads)
+            sc.refs = refs
+            for n in early:
+                p = parent
+                while p is not None and n not in p.refs:
+                    p = p.parent
+                if p is None:
+                    sc.vars[n] = Undef(n)
+        return sc
+
+    # -- expressions
+    def eval(self, e, sc):
+        k = e[0]
+        if k == "c":
+            return e[1]
+        if k == "v" or k == "flag":
+            return sc.lookup(e[1])
+        if k == "cat":
+            return _to_str(self.eval(e[1], sc)) + _to_str(self.eval(e[2], sc))
+        if k == "add1":
+            v = self.eval(e[1], sc)
+            if isinstance(v, Undef):
+                raise _Raise("UndefinedError")
+            if isinstance(v, int):  # bool included, as in Python
+                return int(v) + 1
+            raise _Raise("TypeError")  # str + int
+        if k == "def":
+            return not isinstance(sc.lookup(e[1]), Undef)
+        if k == "odd":
+            v = sc.lookup(e[1])
+            if isinstance(v, Undef):
+                raise _Raise("UndefinedError")
+            if isinstance(v, int):
+                return int(v) % 2 == 1
+            raise _Raise("TypeError")
+        if k == "nsget":
+            v = sc.lookup(e[1])
+            if isinstance(v, Undef):
+                raise _Raise("UndefinedError")
+            if isinstance(v, _NS):
+                return v.attrs.get(e[2], Undef(e[2]))
+            return Undef(e[2])
+        if k == "call":
+            f = sc.lookup(e[1])
+            args = [self.eval(a, sc) for a in e[2]]
+            kwargs = [(kw, self.eval(a, sc)) for kw, a in e[3]]
+            return self.call(f, args, kwargs, None)
+        if k == "caller":
+            f = sc.lookup("caller")
+            args = [self.eval(a, sc) for a in e[1]]
+            return self.call(f, args, [], None)
+        raise ValueError(e)
+
+    MAX_CALL_DEPTH = 40
+
+    def call(self, f, args, kwargs, caller):
+        self.depth += 1
+        try:
+            if self.depth > self.MAX_CALL_DEPTH:
+                # a program of a handful of nodes that nests macro calls this deep recurses forever
+                raise _Raise("RecursionError")
+            return self.call1(f, args, kwargs, caller)
+        finally:
+            self.depth -= 1
+
+    def call1(self, f, args, kwargs, caller):
+        if isinstance(f, Undef):
+            raise _Raise("UndefinedError")
+        if not isinstance(f, _Macro):
+            raise _Raise("TypeError")
+        names = [p for p, _ in f.params]
+        if len(args) > len(names):
+            raise _Raise("TypeError")
+        given = dict(zip(names, args))
+        for kw, v in kwargs:
+            if kw not in names or kw in given:
+                raise _Raise("TypeError")
+            given[kw] = v
+        if not f.uses_caller and caller is not None:
+            raise _Raise("TypeError")
+        params = list(names) + (["caller"] if f.uses_caller else [])
+        sc = self.scope(f.scope, f.body, params, [d for _, d in f.params if d is not None])
+        if f.uses_caller:
+            sc.vars["caller"] = caller if caller is not None else Undef("caller")
+        # all parameters are local names from the start; the ones not provided are
+        # undefined until their default has been evaluated, left to right, in the
+        # macro's own scope  # CALIBRATED (docs only show constant defaults)
+        for p in names:
+            sc.vars[p] = given[p] if p in given else Undef(p)
+        for p, d in f.params:
+            if p not in given and d is not None:
+                sc.vars[p] = self.eval(d, sc)
+        out = [f.marks[0]]
+        self.exec(f.body, sc, out)
+        out.append(f.marks[1])
+        return "".join(out)
+
+    def render_loop(self, lp, items, out):
+        for item in items:
+            it = self.scope(lp.scope, lp.body, (lp.var, "loop"))
+            it.vars[lp.var] = item
+            it.vars["loop"] = lp
+            out.append("[")
+            self.exec(lp.body, it, out)
+            # {{ loop(v.c) }}
+            v = it.lookup(lp.var)
+            if isinstance(v, Undef):
+                raise _Raise("UndefinedError")
+            if isinstance(v, T):
+                buf = []
+                self.render_loop(lp, v.c, buf)
+                out.append("".join(buf))
+            # any other value: `.c` is undefined, and iterating undefined gives no items
+            out.append("]")
+
+    def exec(self, prog, sc, out):
+        for st in prog:
+            k = st[0]
+            if k == "out":
+                out.append(_to_str(self.eval(st[1], sc)))
+            elif k == "text":
+                out.append(st[1])
+            elif k == "set":
+                sc.vars[st[1]] = self.eval(st[2], sc)
+            elif k == "bset":
+                buf = ["s"]
+                self.exec(st[2], self.scope(sc, st[2]), buf)
+                sc.vars[st[1]] = "".join(buf)
+            elif k == "if":
+                for i, (cond, body) in enumerate(st[1]):
+                    if _truth(self.eval(cond, sc)):
+                        out.append("i" if i == 0 else "j")
+                        self.exec(body, sc, out)
+                        break
+                else:
+                    if st[2]:
+                        out.append("e")
+                        self.exec(st[2], sc, out)
+            elif k == "for":
+                items = [1, 2] if st[2] == "l12" else []
+                if st[3] is not None:
+                    kept = []
+                    for item in items:
+                        ts = self.scope(sc, (), (st[1],), (st[3],))
+                        ts.vars[st[1]] = item
+                        if _truth(self.eval(st[3], ts)):
+                            kept.append(item)
+                    items = kept
+                completed = 0
+                for item in items:
+                    it = self.scope(sc, st[4], (st[1],))
+                    it.vars[st[1]] = item
+                    out.append("(")
+                    try:
+                        self.exec(st[4], it, out)
+                    except _Continue:
+                        continue
+                    except _Break:
+                        break
+                    out.append(")")
+                    completed += 1
+                run_else = not items
+                if "ctl-else" in self.variant:
+                    run_else = not completed
+                if run_else and st[5]:
+                    out.append("!")
+                    self.exec(st[5], self.scope(sc, st[5]), out)
+            elif k == "break":
+                raise _Break()
+            elif k == "continue":
+                raise _Continue()
+            elif k == "with":
+                inner = self.scope(sc, st[2], tuple(n for n, _ in st[1]))
+                for n, e in st[1]:
+                    inner.vars[n] = self.eval(e, sc)
+                out.append("w")
+                self.exec(st[2], inner, out)
+            elif k == "macro":
+                sc.vars[st[1]] = _Macro(st[1], st[2], st[3], sc, _mentions_caller(st[3]), ("<", ">"), st)
+            elif k == "callblock":
+                cl = _Macro(None, tuple((p, None) for p in st[1]), st[3], sc, False, ("c", ";"), st)
+                call = st[2]
+                f = sc.lookup(call[1])
+                args = [self.eval(a, sc) for a in call[2]]
+                kwargs = [(kw, self.eval(a, sc)) for kw, a in call[3]]
+                out.append(self.call(f, args, kwargs, cl))
+            elif k == "filter":
+                buf = ["x"]
+                self.exec(st[1], self.scope(sc, st[1]), buf)
+                out.append("".join(buf).upper())
+            elif k == "nsnew":
+                ns = _NS()
+                ns.attrs["x"] = self.eval(st[2], sc)
+                sc.vars[st[1]] = ns
+            elif k == "nsset":
+                tgt = sc.lookup(st[1])
+                # the namespace check comes before the right-hand side is evaluated  # CALIBRATED
+                if not isinstance(tgt, _NS):
+                    raise _Raise("TemplateRuntimeError")
+                tgt.attrs[st[2]] = self.eval(st[3], sc)
+            elif k == "recfor":
+                lp = _Loop(st[1], st[2], sc, st)
+                buf = []
+                self.render_loop(lp, sc.lookup(TREE), buf)
+                out.append("".join(buf))
+            else:
+                raise ValueError(st)
+
+
+VARIANTS = ("late-store", "ctl-else")
+
+
+def interpret(prog, data, variant=None):
     """R-stmt: the text the documented scoping rules give for `prog` on `data`
     (a dict as produced by data_assignments(); `tree` is added if missing), or
-    Failure(<exception class name>) when evaluation raises."""
+    Failure(<exception class name>) when evaluation raises.
+
+    variant=None is the reference.  A variant (a name from VARIANTS or a collection of
+    them) is a *diagnosis aid* that reproduces one specific deviation of the
+    implementation; it is only ever used to label a mismatch, never to accept one:
+      "late-store"  see above
+      "ctl-else"    the for-else block also runs when iterations took place but none
+                    of them reached the end of the loop body (break / continue)"""
     d = dict(data)
     if TREE not in d:
         d[TREE] = make_tree()
-    top = _Scope(None, d)
+    ip = _Interp(variant)
+    top = ip.scope(None, prog, (), (), d)
     out = []
     try:
-        _exec(prog, top, out)
+        ip.exec(prog, top, out)
     except _Raise as e:
         return Failure(e.cls)
     return "".join(out)
